@@ -89,8 +89,38 @@ def name_shape(c, res_z, prefix_z):
     return z3.And(z3.PrefixOf(prefix_z, res_z), z3.SuffixOf(h, res_z), z3.Length(h) == 32)
 
 
+def _slice(ex, v, sl, st, node):
+    """``s[a:b]`` of a string with constant non-negative bounds."""
+    if not (isinstance(v, SV) and v.td == TStr) or sl.step is not None:
+        return None
+
+    def const(n):
+        if n is None:
+            return None
+        if isinstance(n, ast.Constant) and isinstance(n.value, int) and n.value >= 0:
+            return n.value
+        rs = ex.ev(n, st)
+        if len(rs) == 1 and rs[0].kind == "ok" and isinstance(rs[0].value, SV) and z3.is_int_value(rs[0].value.z) and rs[0].value.z.as_long() >= 0:
+            return rs[0].value.z.as_long()
+        raise _Unmodelled()
+
+    try:
+        lo, hi = const(sl.lower) or 0, const(sl.upper)
+    except _Unmodelled:
+        return None
+    n = z3.Length(v.z)
+    end = n if hi is None else z3.If(n < hi, n, z3.IntVal(hi))
+    ln = z3.If(end - lo > 0, end - lo, z3.IntVal(0))
+    return ex.ok(SV(TStr, z3.SubString(v.z, z3.IntVal(lo), ln)), st)
+
+
+class _Unmodelled(Exception):
+    pass
+
+
 def register(reg):
     P = ("C19",)
+    reg.add_hook("slice", _slice)
     reg.add_hook("builtin", _builtin)
     reg.add_hook("getattr_any", _getattr_any)
     reg.add_hook("fstring", _fstring)
@@ -106,6 +136,23 @@ def register(reg):
           lambda c: B(z3.Implies(z3.Length(c.field("name", old=True).z) == 0,
                                  z3.And(z3.PrefixOf(c.name_prefix.z, c.field("name").z),
                                         z3.SuffixOf(uuid_hex(c.state.ghost["last_uuid"]), c.field("name").z) if "last_uuid" in c.state.ghost else z3.BoolVal(False)))))
+
+    # a materialization without an explicit name gets exactly such a generated name (nothing is done to it on the way);
+    # an explicit name is kept.  (The other clauses of this contract are in contracts/apply.py.)
+    from pyvc.types import OptStr
+
+    def mat_name(c):
+        return c.ex.types.attr_symbol(c.ex.repo.cls("Materialization"), "name", TStr)(c.result.z)
+
+    def is_new(c):
+        return z3.And(c.result.z != c.target.z, smt.typ(c.result.z) == c.ex.types.cid(c.ex.repo.cls("Materialization")))
+
+    k = reg.contract("_engine:Engine.materialize")
+    k.ens("explicit-name-kept", lambda c: B(z3.Implies(z3.And(is_new(c), OptStr.is_os_some(c.name.z)), mat_name(c) == OptStr.os_val(c.name.z))))
+    k.ens("generated-name-has-prefix-and-fresh-uuid",
+          lambda c: B(z3.Implies(z3.And(is_new(c), OptStr.is_os_none(c.name.z)),
+                                 z3.And(z3.PrefixOf(c.name_prefix.z, mat_name(c)),
+                                        z3.SuffixOf(uuid_hex(c.state.ghost["last_uuid"]), mat_name(c)) if "last_uuid" in c.state.ghost else z3.BoolVal(False)))))
 
     # lemma (spec level, discharged by the string solver): names ending in different 32-character
     # suffixes are different, whatever precedes them (prefix, counter value, engine)
